@@ -14,7 +14,7 @@ import (
 
 func init() {
 	PropertyText["C13"] = [2]string{
-		"Decides the shape invariants of the per-host limiter: every access to a token bucket's state happens under its mutex (R-TB-LOCK); every store to refillRate is bounded above by idealRate and below by min(0.5, idealRate), every store to tokens keeps it within [0, capacity] (R-TB-RATE-BOUNDS, R-TB-TOKENS); refill adds nothing during a penalty and measures elapsed time from the later of lastRefill and penaltyUntil; a 429/403/408/425 always sets penaltyUntil = now + min(5s·2^(n-1), 30s) — capped before the integer conversion — and zeroes the tokens, 5xx never touches the penalty, success never raises penalty or tokens (R-TB-PENALTY); feedback always reaches a bucket (R-BM-FEEDBACK); the archiver waits once per item before the retry loop and reports every response's status for the request's host (R-TB-USE). refill moves lastRefill to now whenever it credits time (clock-advance clause); a new host's bucket is inserted in the critical section of the lookup that missed (R-BM-SINGLE-BUCKET); the 5xx cut scales the current rate by a factor ≤ 1, so a failure never raises the rate (cut-monotone clause).",
+		"Decides the shape invariants of the per-host limiter: every access to a token bucket's state happens under its mutex (R-TB-LOCK); every store to refillRate is bounded above by idealRate and below by min(0.5, idealRate), every store to tokens keeps it within [0, capacity] (R-TB-RATE-BOUNDS, R-TB-TOKENS); refill adds nothing during a penalty and measures elapsed time from the later of lastRefill and penaltyUntil; a 429/403/408/425 always sets penaltyUntil = now + min(5s·2^(n-1), 30s) — capped before the integer conversion — and zeroes the tokens, 5xx never touches the penalty, success never raises penalty or tokens (R-TB-PENALTY); feedback always reaches a bucket (R-BM-FEEDBACK); the archiver waits once per item before the retry loop and reports every response's status for the request's host (R-TB-USE). refill moves lastRefill to now whenever it credits time (clock-advance clause); a new host's bucket is inserted in the critical section of the lookup that missed (R-BM-SINGLE-BUCKET); the 5xx cut scales the current rate by a factor ≤ 1, so a failure never raises the rate (cut-monotone clause). Every hit in the bucket table refreshes lastAccess, the stamp the cleanup deletes on (R-BM-TOUCH).",
 		"Not decided: the window bound 'capacity + T·rate' and actual release times (arithmetic over real time, needs a virtual-clock model); fairness among concurrent waiters; the 50 ms poll granularity.",
 	}
 	register(&core.Rule{ID: "R-TB-LOCK", Props: []string{"C13", "C16"}, Doc: "every read or write of a tokenBucket field (other than mu/nowFunc) happens with tb.mu held — directly, or in an unexported helper all of whose call sites hold it; BucketManager.buckets only under bm.mu; each Lock is released on every exit", Run: ruleTBLock})
